@@ -71,7 +71,10 @@ rc, o = sh("cargo test --workspace --offline 2>&1 | grep -E '^test result: FAILE
 meta["existing_suite_passes_with_change"] = (o.strip() == "")
 for p in props:
     t = time.time()
-    pr = subprocess.run(["./check", p, "--repo", wt], cwd="/verif", capture_output=True, text=True, timeout=3000)
+    # the checks run from the copy of /verif this script lives in (a scratch copy keeps the Coq build of /verif undisturbed);
+    # the record always goes to /verif/seeded
+    vroot = os.path.dirname(os.path.dirname(os.path.abspath(__file__)))
+    pr = subprocess.run(["./check", p, "--repo", wt], cwd=vroot, capture_output=True, text=True, timeout=3000)
     lines = [l for l in pr.stdout.split("\n") if l.startswith(("VIOLATION", "KNOWN"))]
     rep = None
     m = re.search(r"replay=(\S+)", pr.stdout)
